@@ -795,6 +795,46 @@ def mon_c13(case, obs, prefix):
     return bad
 
 
+def _rc(peer, seq, msg, **kw):
+    return dict({"t": "recv", "peer": peer, "seq": seq, "msg": msg, "fail": [], "usage": []}, **kw)
+
+
+def directed_c05(rnd):
+    """the recorded finding takeover-collision, reproduced on every run (printed as KNOWN-FINDING)"""
+    return [{"maxretrans": 1, "txseq0": 0, "events": [
+        _rc(0, 1, {"k": "asr", "nid": {"v": 0}}), _rc(1, 1, {"k": "asr", "nid": {"v": 1}}),
+        _rc(0, 2, {"k": "est", "nid": {"v": 0}, "fseid": {"v": 10}, "ops": {"cFAR": [1]}}),
+        _rc(1, 2, {"k": "est", "nid": {"v": 1}, "fseid": {"v": 20}, "ops": {"cFAR": [1]}}),
+        _rc(1, 3, {"k": "mod", "seid": 1, "nid": {"v": 1}, "ops": {}}),
+        _rc(1, 4, {"k": "asr", "nid": {"v": 1}})]}]
+
+
+def _usa(seid, urr, val):
+    return {"t": "report", "seid": seid, "items": [{"usa": {"urr": urr, "trig": 2, "vflags": 0, "cnt": [val, 0, 0, 0, 0, 0], "dur": 0,
+                                                       "start": 10, "end": 20}}], "fail": [], "usage": []}
+
+
+def directed_c11(rnd):
+    """finding create-urr-existing-id"""
+    return [{"maxretrans": 0, "txseq0": 0, "events": [
+        _rc(0, 1, {"k": "asr", "nid": {"v": 0}}),
+        _rc(0, 2, {"k": "est", "nid": {"v": 0}, "fseid": {"v": 10}, "ops": {"cURR": [{"id": 1, "method": 2, "info": 0}]}}),
+        _usa(1, 1, 5), _usa(1, 1, 6),
+        _rc(0, 3, {"k": "mod", "seid": 1, "nid": {"absent": True}, "ops": {"cURR": [{"id": 1, "method": 2, "info": 0}]}}),
+        _usa(1, 1, 7)]}]
+
+
+def directed_c12(rnd):
+    """finding create-pdr-existing-id"""
+    return [{"maxretrans": 0, "txseq0": 0, "events": [
+        _rc(0, 1, {"k": "asr", "nid": {"v": 0}}),
+        _rc(0, 2, {"k": "est", "nid": {"v": 0}, "fseid": {"v": 10},
+                   "ops": {"cURR": [{"id": 7, "method": 2, "info": 0}], "cPDR": [{"id": 1, "urrs": [7], "ueip": False}]}}),
+        _rc(0, 3, {"k": "mod", "seid": 1, "nid": {"absent": True}, "ops": {"cPDR": [{"id": 1, "urrs": [7], "ueip": False}]}}),
+        _rc(0, 4, {"k": "mod", "seid": 1, "nid": {"absent": True}, "ops": {"rPDR": [1]}},
+            usage=[{"op": "query", "id": 7, "rpts": [{"urr": 7, "trig": 0, "vflags": 0, "cnt": [1, 2, 3, 4, 5, 6], "dur": 0, "start": 1, "end": 2}]}])]}]
+
+
 def directed_c13(rnd):
     """bursts below, at and beyond the queue capacity in ONE notification batch; then session end and SEID re-use"""
     def rc(peer, seq, msg):
